@@ -40,6 +40,10 @@ def check(run, prog, tier):
     from . import c12
     c12.rule_I(run, prog, "C11-I", "exciton a then gets the participation numbers of site a, and the spectrum changes when the "
                                    "molecules are relabelled")
+    run.rule("C11-J", "all exciton lines are treated alike: the later lines take their lifetime term under the same conditions "
+                      "as the first; the weight of a molecule in an exciton is read from the rows of the states in which that "
+                      "molecule is excited", minimum=2)
+    rule_J(run, prog)
     run.rule("C11-A", "eigenbasis transformations in the aggregate calculation are undone", minimum=4)
     run.rule("C11-B", "half-sided transform is laid on the returned grid", minimum=10)
     run.rule("C11-C", "dipoles enter through scalar products only", minimum=3)
@@ -57,7 +61,8 @@ def check(run, prog, tier):
     run.rule("C11-G", "the calculator reads the frequency axis (and the rotating-wave energies) under internal units: "
                       "the line positions, which are internal, are laid on it", minimum=9)
     from . import intunits
-    intunits.check_classes(run, prog, "C11-G", ["quantarhei.spectroscopy.abscalculator.AbsSpectrumCalculator"], 9,
+    intunits.check_classes(run, prog, "C11-G", ["quantarhei.spectroscopy.abscalculator.AbsSpectrumCalculator",
+                                                "quantarhei.spectroscopy.mockabscalculator.MockAbsSpectrumCalculator"], 9,
                            "transition energies and the frame frequency are internal: the lines no longer sit at their "
                            "transition energies on the returned axis")
 
@@ -327,3 +332,74 @@ def rule_D(run, prog):
         run.obligation(rid, f.short, ok, key="prefactor",
                        message="the frequency prefactor must multiply the data exactly when raw is false, before "
                                "the spectrum object is created on the same axis", loc=f.loc(), sample={"site": f.short})
+
+
+def rule_J(run, prog):
+    """'The spectrum equals the direct Fourier integral sum_a |d_a|^2 exp(-g_a(t) - i w_a t)' - every line a with its own
+    lifetime and its own line-shape function g_a.
+    (i) _calculate_aggregate assigns tr["gg"] = gg[1] for the first line in an if/elif chain over the supplied relaxation
+    (tensor, rate matrix) and tr["gg"] = gg[ii] for the later lines inside the loop: the names whose presence decides
+    it are the same in both places - a source of rates honoured for the first line only broadens that line alone.
+    (ii) _excitonic_coft weights the site correlation functions with the participation of molecule k in exciton n.  The
+    rows of the eigenvector matrix SS count the states of the aggregate, not the molecules: a row index of SS is taken
+    from the aggregate's state table (AG.vibindices[...]) and not computed from the running number of the molecule."""
+    from ..loader import parents_map
+    rid = "C11-J"
+    cls = prog.cls("quantarhei.spectroscopy.abscalculator.AbsSpectrumCalculator")
+    f = cls.methods["_calculate_aggregate"]
+    prog.consulted.add(f.relpath)
+    pm = parents_map(f.node)
+
+    def deciding_names(st):
+        names, node = set(), st
+        while node is not None and node is not f.node:
+            p_ = pm.get(node)
+            if isinstance(p_, ast.If):
+                chain = p_
+                # the whole if/elif chain this If belongs to
+                while isinstance(pm.get(chain), ast.If) and chain in pm.get(chain).orelse and len(pm.get(chain).orelse) == 1:
+                    chain = pm.get(chain)
+                c_ = chain
+                while True:
+                    # only the tests of the branches that lead to a store of gg[...]
+                    if any(isinstance(x, ast.Assign) and norm(x.targets[0]) == "tr['gg']" and norm(x.value).startswith("gg[") for b in c_.body for x in ast.walk(b)):
+                        for x in ast.walk(c_.test):
+                            if isinstance(x, ast.Compare) and isinstance(x.ops[0], ast.IsNot) and isinstance(x.left, ast.Name):
+                                names.add(x.left.id)
+                    if len(c_.orelse) == 1 and isinstance(c_.orelse[0], ast.If):
+                        c_ = c_.orelse[0]
+                    else:
+                        break
+                return names
+            node = p_
+        return names
+    stores = [x for x in walk_no_nested(f.node) if isinstance(x, ast.Assign) and norm(x.targets[0]) == "tr['gg']" and norm(x.value).startswith("gg[")]
+    first = [x for x in stores if isinstance(x.value.slice, ast.Constant)]
+    later = [x for x in stores if isinstance(x.value.slice, ast.Name)]
+    if not first or not later:
+        raise AnalysisError("_calculate_aggregate: the stores of the lifetime terms of the first and of the later lines not found")
+    n1 = set().union(*[deciding_names(x) for x in first])
+    n2 = set().union(*[deciding_names(x) for x in later])
+    run.obligation(rid, "AbsSpectrumCalculator._calculate_aggregate", n1 == n2, key="lines-treated-alike",
+                   message="the first exciton line takes its lifetime term when one of %s is supplied, the later lines only for %s: "
+                           "with the other source of rates only the first line is lifetime-broadened" % (sorted(n1), sorted(n2)),
+                   loc=f.loc(later[0]), sample={"first_line": sorted(n1), "later_lines": sorted(n2)})
+    g = cls.methods["_excitonic_coft"]
+    prog.consulted.add(g.relpath)
+    ss = g.node.args.args[1].arg
+    ag = g.node.args.args[2].arg
+    rows = [x for x in ast.walk(g.node) if isinstance(x, ast.Subscript) and norm(x.value) == ss and isinstance(x.slice, ast.Tuple)
+            and len(x.slice.elts) == 2]
+    if not rows:
+        raise AnalysisError("_excitonic_coft: no element of the eigenvector matrix is read")
+    # loop variables that run over a state table of the aggregate
+    state_vars = {lp.target.id for lp in ast.walk(g.node) if isinstance(lp, ast.For) and isinstance(lp.target, ast.Name)
+                  and any(isinstance(y, ast.Attribute) and y.attr in ("vibindices", "elinds") and norm(y.value) == ag for y in ast.walk(lp.iter))}
+    for x in rows:
+        r = x.slice.elts[0]
+        ok = (isinstance(r, ast.Name) and r.id in state_vars) or any(
+            isinstance(y, ast.Attribute) and y.attr in ("vibindices", "elinds") and norm(y.value) == ag for y in ast.walk(r))
+        run.obligation(rid, "AbsSpectrumCalculator._excitonic_coft", ok, key="row-is-a-state:" + norm(x)[:30],
+                       message="_excitonic_coft reads %s: the row index is computed from the number of the molecule, but the rows of the "
+                               "eigenvector matrix are states of the aggregate; with vibrational modes these rows are vibrational levels "
+                               "of the ground state and the line-shape functions come out as zero" % norm(x), loc=g.loc(x))
